@@ -37,6 +37,12 @@ CLAIMED = {
  'C12': dict(cat='other', ref='DESIGN.md §4 C12',
    text='Document-level $repeat with a plain count is proved completely: repeatDocGenFromInt returns exactly max(n,0) documents, the j-th a fresh copy of the document data evaluated in a fresh context that binds the name to j and otherwise equals the original context, with no existing object changed (allocation frame); repeatDocGen dispatches int/map/other (other: ErrInvalidRepeat); repeatDocMap pops $repeat and leaves documents without it untouched. Nested $repeat: a non-integer count is an error, and every copy is evaluated in a clone of the context with $repeat bound to its index (site assertions at the process2 calls).',
    note='Not proved: the cartesian product order of named counts (repeatDocGenFromMap: needs non-linear arithmetic; only the equal length of documents and contexts is proved), the order/concatenation of nested copies (needs a name for each process2 result), and that a copy equals the hand-written document (that is the definition of process2 under the bound context).'),
+ 'C13': dict(cat='other', ref='DESIGN.md §4 C13',
+   text='envVars is proved to build exactly the map "$env:"+K -> string V from the environment entries, split at the first "=" (entries without "=" skipped); GetVar returns the bound value or ErrVariableNotFound, never an empty substitution; process2String dispatches $env:NAME and $repeat to GetVar and leaves every other non-template string unchanged; getWithVar prefers the document path and only then the variable; the per-placeholder closure of process2StringInterp is proved to latch the first error (closure guarantees checked on the real literal).',
+   note='ASSUMED: regexp.ReplaceAllStringFunc calls the literal on exactly the {..} matches left to right and copies the rest (the literal is executed from an arbitrary state instead); fmt %v; os.Environ constant during an evaluation. Recorded finding K2 (replayed on the real CLI on every run): a substituted value is later treated as source text ($$ unescaped, directive-shaped values rejected). The whole-template clause "other text unchanged" is not proved.'),
+ 'C14': dict(cat='proof', ref='DESIGN.md §4 C14',
+   text='process2EncodeString is proved, for all values and all transform strings, to return encStrF(obj, v) and to fail exactly on encStrE(obj, v), where the spec spells out every transform from the documentation: base64/sha256 of fmt(%v) of the denoted value, flatten one level, join with optional delimiter, prefix, tolist (maps by ascending key, list values fanned out, empty string value gives the bare key; lists of maps concatenated), values by ascending key, flags = tolist:= then prefix:--, <format> = that codec, and all arity/kind errors; process2EncodeAny is proved to be the left fold over a transform list; the helpers (toStringListPermissive, process2ToList*, process2ValuesMap) are proved against list specs; $decode requires exactly {$value: string}, a known format and exactly one decoded document, and normalizes it.',
+   note='ASSUMED: base64, sha256, hex and the three codecs are their standard functions (uninterpreted b64, sha256raw, hexenc, marshalS); GetFormat is under an assumed contract (table lookup); fmt %v is uninterpreted; that $decode inverts $encode is the codec round trip of third-party libraries (not under contract).'),
  'C15': dict(cat='other', ref='DESIGN.md §4 C15',
    text='The round trip is the postcondition itself: for every "$"-free, null-free target and any base, diff/diffMap/diffMapMap/diffList are proved to return nil exactly when target = base, and otherwise a layer L with not mergeErr(base, L) and mergeF(base, L) = target - the same mergeF/mergeErr that merge is proved against in C01 - outside the classes of finding F13 (kindBad: a container changing kind where the merge rules reject the override).',
    note='diffListList is under an ASSUMED contract (trusted, body not verified) that only covers list pairs that are equal or fall back to whole-list $replace; entry-level list patches (added/deleted map entries, reordering, duplicates, partial-match deletes) are not claimed - they are finding F13; reflect.DeepEqual is modelled as structural equality; main/diffDoc ($match: {}) are not under contract.'),
